@@ -164,6 +164,8 @@ PROPS = {
             {"bin": "d6_append_slice_open_label", "finding": "D6"},
             {"bin": "d15_append_name_open_label", "finding": "D15"},
             {"bin": "d5_append_label_at_limit", "finding": "D5", "expect": "fail"},
+            {"bin": "d49_chain_relative_255", "finding": "D49", "expect": "fail"},
+            {"bin": "d50_uncertain_from_octets_long_relative", "finding": "D50"},
         ],
         "explanation": "Name::check_slice / RelativeName::check_slice accept exactly abs_name / rel_name of at most 255 / 254 octets "
                        "(recursive RFC 1035 predicates), from_slice returns a value only then; the unchecked constructors carry their "
@@ -176,7 +178,9 @@ PROPS = {
                        "RelativeName::{is_label_start, check_index, split, truncate, strip_suffix}: a position is accepted exactly when it "
                        "is the start of a label (or the end of a relative name), the documented panic otherwise; the parts handed out are "
                        "valid names holding exactly the octets before / behind the position; strip_suffix succeeds exactly when the base is a "
-                       "label-wise suffix, cuts off exactly its octets and leaves a valid name, and leaves the name alone when it refuses.",
+                       "label-wise suffix, cuts off exactly its octets and leaves a valid name, and leaves the name alone when it refuses. "
+                       "UncertainName::is_slice_absolute (the check behind UncertainName::from_octets) accepts exactly the valid absolute names "
+                       "of at most 255 octets and the valid non-empty relative names of at most 254 (this contract exposed D50).",
         "not_covered": "Presentation-text round trip (Display/FromStr: core::fmt and char iterators), append_name/append_origin/"
                        "append_symbols (label iterators), Chain beyond its length check, UncertainName, slice/range with general RangeBounds and Name::{truncate, strip_suffix} (searched natively only), "
                        "zonefile::inplace name conversion. Builders that refuse to grow (ShortBuf) are outside the contracts (D13).",
